@@ -1,3 +1,69 @@
-/-! Model for property C03 (core Lean only; no Mathlib). -/
+/-! Model for property C03: the order of QR operations of `canonical_form` and of centre moves
+(`pytreenet/core/canonical_form.py`, `ttn.move_orthogonalization_center`).  Core Lean only.
+
+`dist` is the distance dictionary returned by `distance_to_node(centre)` as an association list in
+dict (insertion) order; `nbrs n` the neighbour list of node `n` (parent first, then children).
+
+* `closest`     ↔ `_find_smallest_distance_neighbour` (Python `min(dict, key=…)`: first minimum)
+* `canonOps`    ↔ the double loop of `canonical_form`: for distance = max … 1, for every node with
+                  that distance in dict order: QR toward `closest`, R absorbed there
+* `moveOps`     ↔ `move_orthogonalization_center` along a path: one QR per hop -/
 namespace Ptn.C03
+
+abbrev Dist := List (Nat × Nat)          -- (node, distance)
+
+def lookup (dist : Dist) (n : Nat) : Option Nat := (dist.find? (·.1 == n)).map (·.2)
+
+def maxDist (dist : Dist) : Nat := dist.foldl (fun m p => max m p.2) 0
+
+/-- First neighbour with the smallest distance (`none` if a neighbour has no entry: KeyError). -/
+def closest (dist : Dist) (nb : List Nat) : Option Nat :=
+  match nb with
+  | [] => none
+  | n :: rest =>
+    match lookup dist n with
+    | none => none
+    | some dn =>
+      match rest with
+      | [] => some n
+      | _ =>
+        match closest dist rest with
+        | none => none
+        | some m =>
+          match lookup dist m with
+          | none => none
+          | some dm => if dm < dn then some m else some n
+
+/-- One QR operation: split `node`, absorb R into `target`. -/
+structure Op where
+  node : Nat
+  target : Nat
+deriving Repr, DecidableEq
+
+def opsAt (dist : Dist) (nbrs : Nat → List Nat) (d : Nat) : List Op :=
+  (dist.filter (·.2 == d)).filterMap fun p => (closest dist (nbrs p.1)).map fun t => ⟨p.1, t⟩
+
+def canonOps (dist : Dist) (nbrs : Nat → List Nat) : List Op :=
+  (List.range (maxDist dist)).reverse.flatMap fun k => opsAt dist nbrs (k + 1)
+
+/-- No `KeyError`: every node at distance ≥ 1 finds a closest neighbour. -/
+def canonComplete (dist : Dist) (nbrs : Nat → List Nat) : Bool :=
+  dist.all fun p => p.2 == 0 || (closest dist (nbrs p.1)).isSome
+
+/-- Moving the centre along `path = [c, x₁, …, x_k]`. -/
+def moveOps : List Nat → List Op
+  | a :: b :: rest => ⟨a, b⟩ :: moveOps (b :: rest)
+  | _ => []
+
+def finalCentre (c : Nat) (path : List Nat) : Nat := path.getLast?.getD c
+
+/-- The gauge machine: which neighbour every tensor is an isometry toward (`none`: unknown /
+    centre).  A QR at `node` toward `target` makes `node` an isometry toward `target` and destroys
+    the isometry property of `target`. -/
+def applyOp (dir : Nat → Option Nat) (o : Op) : Nat → Option Nat :=
+  fun n => if n = o.node then some o.target else if n = o.target then none else dir n
+
+def applyOps (dir : Nat → Option Nat) (ops : List Op) : Nat → Option Nat :=
+  ops.foldl applyOp dir
+
 end Ptn.C03
